@@ -1030,7 +1030,7 @@ impl Out {
         let opname = case.split(' ').next().unwrap_or("");
         let class = if res.starts_with("!PANIC") {
             "!PANIC".to_string()
-        } else if res.starts_with('!') {
+        } else if res.starts_with('!') || opname == "wf" {
             res.to_string()
         } else {
             "Ok".to_string()
@@ -1127,7 +1127,7 @@ fn cmd_gen(outdir: &str, n_valid: u64, n_mut: u64) {
         // ---------------- valid messages: every alternative in turn ----------------
         for i in 0..n_valid.max(n_alts(kind)) {
             let has_value = MessageKind::try_from(kind).unwrap().has_value();
-            let big = has_value && big_budget > 0 && r.chance(1, 400);
+            let big = has_value && big_budget > 0 && ((i == 3 && kind % 8 == 3) || r.chance(1, 400));
             if big {
                 big_budget -= 1;
             }
